@@ -353,6 +353,16 @@ func getMapIndex(key reflect.Value, aMap reflect.Value) reflect.Value {
 // appendSlice appends rhs to lhs
 // function assumes lhsV and rhsV are slice or array
 func appendSlice(expr ast.Expr, lhsV reflect.Value, rhsV reflect.Value) (reflect.Value, error) {
+	// the elements are converted into a slice of their own first: when one of them cannot be
+	// converted, the array lhsV shares with other slices has not been written
+	converted, err := appendSliceElements(expr, reflect.MakeSlice(lhsV.Type(), 0, rhsV.Len()), rhsV)
+	if err != nil {
+		return nilValue, err
+	}
+	return reflect.AppendSlice(lhsV, converted), nil
+}
+
+func appendSliceElements(expr ast.Expr, lhsV reflect.Value, rhsV reflect.Value) (reflect.Value, error) {
 	lhsT := lhsV.Type().Elem()
 	rhsT := rhsV.Type().Elem()
 
